@@ -15,12 +15,14 @@ def run(tier, seed, replay=None):
     ck = vlib.Check("C16", tier, seed, "model_checking")
     binary = vlib.build_harness()
     # 1. fine-grained model: every lock / unlock / channel step, without and with the pubsub watcher
-    base = dict(Threads="{1,2}", MaxCalls=2, FIXED=True, UNLOCK='"code"', Watcher=False, MaxMsgs=0, MaxRestarts=0, Resend=False)
+    base = dict(Threads="{1,2}", MaxCalls=2, FIXED=True, UNLOCK='"code"', Watcher=False, MaxMsgs=0, MaxRestarts=0, Resend=False, Cancels=False)
     locks = {"2 threads x 2 calls": base,
              "3 threads x 1 call": dict(base, Threads="{1,2,3}", MaxCalls=1),
              "watcher, 2 threads x 2 calls, 1 message": dict(base, Watcher=True, MaxMsgs=1),
              "watcher, 3 threads x 1 call, 1 message": dict(base, Watcher=True, MaxMsgs=1, Threads="{1,2,3}", MaxCalls=1),
-             "watcher with re-publication, 2 threads x 2 calls": dict(base, Watcher=True, MaxMsgs=2, Resend=True)}
+             "watcher with re-publication, 2 threads x 2 calls": dict(base, Watcher=True, MaxMsgs=2, Resend=True),
+             "cancelled contexts, 2 threads x 2 calls": dict(base, Cancels=True),
+             "cancelled contexts, watcher, 3 threads x 1 call": dict(base, Cancels=True, Watcher=True, MaxMsgs=1, Threads="{1,2,3}", MaxCalls=1)}
     if tier == "thorough":
         locks["3 threads x 2 calls"] = dict(base, Threads="{1,2,3}", MaxCalls=2)
         locks["2 threads x 3 calls"] = dict(base, MaxCalls=3)
@@ -67,7 +69,7 @@ def run(tier, seed, replay=None):
             raise vlib.Infra("no trace recorded for configuration " + conf)
         trace = os.path.join(wd, "all.ndjson")
         open(trace, "w").write("\n".join(lines) + "\n")
-        c = dict(Threads=threads, MaxCalls=1, FIXED=True, UNLOCK='"code"', Watcher=watcher, MaxMsgs=100000, MaxRestarts=0, Resend=resend)
+        c = dict(Threads=threads, MaxCalls=1, FIXED=True, UNLOCK='"code"', Watcher=watcher, MaxMsgs=100000, MaxRestarts=0, Resend=resend, Cancels=True)
         r = vlib.tlc("ReceiverLocksTrace", ("t.cfg", vlib.cfg_text(c, ["MutexReleased", "ResultsOK"], spec="TSpec", postcondition="Accepted")), workers=1, timeout=3000,
                      env_extra={"VERIF_TRACE": trace}, tag="rlt" + conf, heap="8g")
         ck.cov["tlc_runs"].append({"name": "trace validation " + conf, "events": len(lines), "accepted": r.ok, "wall_s": round(r.wall, 1)})
@@ -83,7 +85,7 @@ def run(tier, seed, replay=None):
         shutil.rmtree(wd, ignore_errors=True)
     ck.cov["trace_events_validated"] = total
     ck.cov["schedules_rule"] = ("seeded random schedules of a real Receiver under the gate scheduler over the yield hooks of receiver.go: 3-8 API calls (Close one or more times, Direct from an "
-                                "allowed / a refused peer, Next, UncacheCid), each in its own goroutine, one goroutine running at a time; four configurations: no host, host without topic, "
+                                "allowed / a refused peer, Next, UncacheCid; in a third of the runs half of the Direct / Next calls under a context that is cancelled at a random point), each in its own goroutine, one goroutine running at a time; four configurations: no host, host without topic, "
                                 "host with a topic on which the harness publishes 0-3 pubsub messages (allowed or not), host with the receiver's own topic and re-publication of direct "
                                 "announcements; the run ends when nothing can move: a call that has not returned by then, or a watcher that is still running, is a hang; TLC validates "
                                 "each trace against the actions of ReceiverLocks.tla with ResultsOK / MutexReleased as invariants")
